@@ -10,10 +10,18 @@
    and the run-time-decidable side conditions on the challenges actually drawn: t is not
    in the domain (t - i invertible, canonical value above n-1) and the k IPA round
    challenges are invertible.  Commitments are taken as the group elements Commit(f_i);
-   independence of their representation is C07/C08. *)
+   independence of their representation is C07/C08.
+   The group laws hold in an abstract group, not on projective REPRESENTATIONS up to Leibniz
+   equality.  C01_complete_on_representations closes that gap: for any implementation go1 of
+   the group interface (the code's coordinate-level operations) related to a lawful group go2
+   by a relation that the operations preserve and that encoding and Equal respect, the
+   prover run on representations produces the same transcript, the same scalars and related
+   group elements, and the verifier run on representations accepts.  What remains a premise
+   for Banderwagon is the existence of that relation (the curve group and "the formulas
+   compute it": C08 proves the parts reachable by ring reasoning). *)
 From Coq Require Import ZArith List Permutation Arith.
 From GoIpa Require Import Model.Bytes Model.Alg Model.Transcript Model.Bary Model.Banderwagon Model.IPA Model.Multiproof
-  Proofs.AlgLaws Proofs.GroupingProofs Proofs.MultiproofProofs Proofs.IPAProofs Proofs.BaryProofs Proofs.MultiproofComplete.
+  Proofs.AlgLaws Proofs.GroupingProofs Proofs.MultiproofProofs Proofs.IPAProofs Proofs.BaryProofs Proofs.MultiproofComplete Proofs.Transfer.
 Import ListNotations.
 
 Theorem C01_grouping_loses_nothing :
@@ -101,3 +109,42 @@ Definition toy_mp_run (lab : Z) : option bool :=
   end.
 Example C01_example_toy_multiproof : map toy_mp_run [1; 3; 4; 5; 6]%Z = repeat (Some true) 5.
 Proof. vm_compute. reflexivity. Qed.
+
+(* completeness for the run on representations, via any lawful group related to them *)
+Theorem C01_complete_on_representations :
+  forall (F G1 G2 : Type) (fo : FOps F) (go1 : GOps F G1) (go2 : GOps F G2) (hashf : list Z -> list Z),
+  FieldLaws fo -> GroupLaws fo go2 ->
+  forall rel : G1 -> G2 -> Prop,
+  rel (g0 go1) (g0 go2) ->
+  (forall a a' b b', rel a a' -> rel b b' -> rel (gadd go1 a b) (gadd go2 a' b')) ->
+  (forall s p p', rel p p' -> rel (gmul go1 s p) (gmul go2 s p')) ->
+  (forall a a', rel a a' -> rel (gneg go1 a) (gneg go2 a')) ->
+  (forall a a', rel a a' -> genc go1 a = genc go2 a') ->
+  (forall a a' b b', rel a a' -> rel b b' -> geqb go1 a b = geqb go2 a' b') ->
+  (forall x, geqb go2 x x = true) ->
+  (forall i j, dom fo (i + j) = fadd fo (dom fo i) (dom fo j)) ->
+  forall k c1 c2 nw arrival t (fs : list (list F)) (zs : list nat),
+    cfg_rel rel c1 c2 ->
+    c_n c2 = (2 ^ k)%nat -> c_rounds c2 = k -> length (c_srs c2) = (2 ^ k)%nat ->
+    c_w c2 = new_weights fo (2 ^ k) -> nodes_ok fo (2 ^ k) ->
+    (1 <= nw)%nat -> Permutation arrival (seq 0 nw) ->
+    fs <> [] -> length zs = length fs ->
+    Forall (fun f => length f = (2 ^ k)%nat) fs -> Forall (fun z => (z < 2 ^ k)%nat) zs ->
+    let cs1 := map (msm go1 (c_srs c1)) fs in
+    let cs2 := map (msm go2 (c_srs c2)) fs in
+    let ys := map (fun fz : list F * nat => nth (snd fz) (fst fz) (f0 fo)) (combine fs zs) in
+    match mp_create fo go1 hashf nw arrival t c1 (msm go1 (c_srs c1)) cs1 fs zs,
+          mp_create fo go2 hashf nw arrival t c2 (msm go2 (c_srs c2)) cs2 fs zs with
+    | inl (t', pr1), inl (t'', pr2) =>
+        t' = t'' /\ mp_rel rel pr1 pr2 /\
+        (let '(t4, tch, EmD, g2t) := mp_view fo go2 hashf c2 t pr2 cs2 ys zs in
+         off_domain fo (2 ^ k) tch -> (Z.of_nat (2 ^ k) - 1 < f2z fo tch)%Z ->
+         Forall (invertible fo) (ipa_challenges fo go2 hashf t4 c2 EmD (mpIPA pr2) tch g2t) ->
+         mp_check fo go1 hashf t c1 pr1 cs1 ys zs = Some (t', true))
+    | _, _ => False
+    end.
+Proof.
+  intros F G1 G2 fo go1 go2 hashf FL GL2 rel H0 Ha Hm Hn He Hq Hr Hd.
+  exact (mp_complete_on_representations fo go1 go2 hashf FL GL2 rel H0 Ha Hm Hn He Hq Hr Hd).
+Qed.
+Print Assumptions C01_complete_on_representations.
